@@ -215,14 +215,22 @@ class Prover:
             for ob in unk:
                 ins = inputs_of(ob)
                 for k in range(48 if self.tier == 'quick' else 256):
-                    pins = self.pins(ins, keep=(0 if k % 4 else 3))
-                    tasks.append(Task(ob, 'pin%d' % k, ob._hyps + pins, ob._goal, [('z3-5.1.0', 5)], ins))
+                    if k % 3 == 2:
+                        nfree = [0, 3, max(3, len(ins) // 4), max(3, len(ins) // 2)][(k // 3) % 4]
+                        pins = self.pins(ins, keep=nfree, ints=(k % 2 == 0))
+                    else:
+                        pins = self.group_pins(ins)
+                    tasks.append(Task(ob, 'pin%d' % k, ob._hyps + pins, ob._goal, [('z3-5.1.0', 8)], ins))
             run_tasks(tasks)
             for t in tasks:
                 if t.status == 'sat' and t.ob.status == 'unknown':
                     t.ob.status = 'sat'; t.ob.backend = t.backend + '+pinning'; t.ob.model = t.model
                     t.ob.model_text = getattr(t, 'model_text', ''); t.ob.smt2 = t.smt2
                     t.ob.steps.append(self.rec(t.ob, t))
+        # stage 3a': model of the hypotheses first, then evaluate the goal in it (finds violations of identities: any generic
+        # point of the path refutes them, while 'hyps and not goal' in one query is too hard for the non-linear solver)
+        for ob in [o for o in pending if o.status == 'unknown']:
+            self.model_then_eval(ob, inputs_of(ob))
         # stage 3b: non-linear integer products abstracted to an uninterpreted function (a weakening; only 'unsat' is kept)
         unk = [ob for ob in pending if ob.status == 'unknown']
         if unk:
@@ -255,6 +263,37 @@ class Prover:
             ob.detail = '; '.join('%s=%s(%s %.2fs)' % (s['label'], s['status'], s['backend'], s['time']) for s in ob.steps[-6:])
         return obs
 
+    def model_then_eval(self, ob, ins, tries=6):
+        t0 = time.time()
+        reals = [s for s in ins if z3.is_real(s)]
+        for k in range(tries):
+            s = z3.Solver(); s.set('timeout', 4000)
+            for h in ob._hyps: s.add(h)
+            self.rnd.shuffle(reals)
+            for x in reals[:max(0, int(len(reals) * [0.8, 0.6, 0.4, 0.25, 0.5, 0.7][k % 6]))]:
+                s.add(x == z3.RealVal(fractions.Fraction(self.rnd.randint(-12, 12), self.rnd.choice([1, 2, 4]))))
+            try:
+                if s.check() != z3.sat: continue
+                m = s.model()
+                v = m.eval(ob._goal, model_completion=True)
+                if z3.is_false(v):
+                    ob.status = 'sat'; ob.backend = 'z3-5.1.0(api)+model-of-path-then-evaluate'
+                    ob.model = {}
+                    for x in ins:
+                        try:
+                            val = m.eval(x, model_completion=True)
+                            if z3.is_rational_value(val): ob.model[x.sexpr()] = fractions.Fraction(val.numerator_as_long(), val.denominator_as_long())
+                            elif z3.is_int_value(val): ob.model[x.sexpr()] = fractions.Fraction(val.as_long())
+                            elif z3.is_true(val) or z3.is_false(val): ob.model[x.sexpr()] = z3.is_true(val)
+                        except Exception:
+                            pass
+                    ob.model_text = 'model of the path condition in which the goal evaluates to false:\n' + str(m)[:3000]
+                    r = {'obligation': ob.name, 'label': 'model-then-eval', 'status': 'sat', 'backend': ob.backend, 'time': round(time.time() - t0, 3), 'detail': 'try %d' % k}
+                    self.records.append(r); ob.steps.append(r)
+                    return
+            except z3.Z3Exception:
+                continue
+
     def direct(self, obs, plan, label, inputs_of):
         tasks = [Task(ob, label, ob._hyps, ob._goal, plan, inputs_of(ob)) for ob in obs]
         run_tasks(tasks)
@@ -272,14 +311,32 @@ class Prover:
         self.records.append(r)
         return r
 
-    def pins(self, ins, keep=3):
+    def group_pins(self, ins):
+        """pin whole groups of inputs (all reads of one vec3 field / one scalar field), each group with probability 1/2"""
+        groups = {}
+        for s in ins:
+            if not z3.is_real(s): continue
+            nm = str(s.arg(0)) if (z3.is_app(s) and s.num_args() > 0) else str(s)
+            nm = nm.split('!')[0]
+            key = nm.rsplit('.', 1)[0] if nm.endswith(('.dx_', '.dy_', '.dz_')) else nm
+            groups.setdefault(key, []).append(s)
+        out = []
+        for key, members in sorted(groups.items()):
+            if self.rnd.random() < 0.5: continue
+            positive = self.rnd.random() < 0.5
+            for s in members:
+                v = fractions.Fraction(self.rnd.randint(1, 12) if positive else self.rnd.randint(-8, 8), self.rnd.choice([1, 2, 4]))
+                out.append(s == z3.RealVal(v))
+        return out
+
+    def pins(self, ins, keep=3, ints=True):
         ins = list(ins)
         self.rnd.shuffle(ins)
         out = []
         for s in ins[keep:]:
             if z3.is_real(s):
                 out.append(s == z3.RealVal(fractions.Fraction(self.rnd.randint(-12, 12), self.rnd.choice([1, 2, 4]))))
-            elif z3.is_int(s):
+            elif z3.is_int(s) and ints:
                 out.append(s == self.rnd.randint(0, 6))
         return out
 
